@@ -33,14 +33,16 @@ class State:
         self.sizes = []
         self.outs = 0
         self.trace = []
+        self.events = []      # filled by call hooks
 
     def fork(self):
         return copy.deepcopy(self)
 
 
 class Interp:
-    def __init__(self, ptr, size_ptr, out_ptr):
+    def __init__(self, ptr=None, size_ptr=None, out_ptr=None, call_hook=None):
         self.ptr, self.size_ptr, self.out_ptr = ptr, size_ptr, out_ptr
+        self.call_hook = call_hook      # call_hook(x, state, interp) -> value, or NotImplemented for the default
 
     # ---------------------------------------------------------------- expressions
     def ev(self, x, st):
@@ -53,7 +55,9 @@ class Interp:
             return x[2]
         if t == "l":
             return st.v.get(x[1], TOP)
-        if t in ("p", "g", "f", "s", "this", "def"):
+        if t == "g":
+            return st.v.get("g:" + x[1], TOP)
+        if t in ("p", "f", "s", "this", "def"):
             return TOP
         if t == "cast":
             return self.ev(x[2], st)
@@ -120,6 +124,10 @@ class Interp:
                 return TOP
             return self.ev(x[2] if c else x[3], st)
         if t == "c":
+            if self.call_hook:
+                r = self.call_hook(x, st, self)
+                if r is not NotImplemented:
+                    return r
             if x[2]:
                 self.ev(x[2], st)
             for a in x[3]:
